@@ -114,6 +114,16 @@ def search(bdir, row, hmcs, net, threads, hashmb, prelude=()):
                             lastx = dx
                     if lastx and (lastx["kind"] == "mate" or lastx["depth"] >= 4):
                         break
+            # An exact line in the middle of an iteration is not the engine's report yet (with several threads the root moves of one
+            # iteration come out in varying order: 'mate 9' for the first move, 'mate 8' for a later one half a millisecond after).
+            # The search is therefore stopped only when the engine has been silent for 0.7 s (3 s at most); with the table in memory
+            # it usually ends by itself a few plies after the mate is found.
+            t_settle = time.time() + 3.0
+            while time.time() < t_settle:
+                more, _ = eng.read_until(lambda l: l.startswith("info depth") and " pv " in l, 0.7)
+                if not more:
+                    break
+                lines_all += more
             eng.send("stop")
             lines, ok = eng.read_until(lambda l: l.startswith("bestmove"), 180)
             lines_all += lines
